@@ -393,7 +393,6 @@ dgssvx(superlu_options_t *options, SuperMatrix *A, int *perm_c, int *perm_r,
     equil = (options->Equil == YES);
     notran = (options->Trans == NOTRANS);
     if ( nofact ) {
-	if ( lwork != -1 ) *(unsigned char *)equed = 'N';
 	rowequ = FALSE;
 	colequ = FALSE;
     } else {
@@ -487,6 +486,8 @@ printf("dgssvx: Fact=%4d, Trans=%4d, equed=%c\n",
 	mem_usage->total_needed = *info - A->ncol;
 	return;
     }
+
+    if ( nofact ) *(unsigned char *)equed = 'N';
     
     /* Initialization for factor parameters */
     panel_size = sp_ienv(1);
